@@ -16,12 +16,15 @@ from ..cfg import CFG, node_calls
 
 LEVEL = "other"
 TECHNIQUE = "sibling cross-check of the two tree-builder back-ends against base.Node / base.TreeBuilder; CFG pairing of list mutations"
-CLAIM = ("Both back-ends implement the complete primitive interface with the base signatures; every primitive that attaches or "
-         "detaches a node maintains the parent pointer; in the ElementTree back-end the shadow child list that "
-         "reparentChildren/removeChild consult is updated on every path that updates the real child list -- the structural "
-         "reason one back-end could lose or misplace nodes that the other keeps; etree text is appended, never "
-         "overwritten; the childNodes property's list is not mutated in place; namespaced attribute keys use their namespace "
-         "in both back-ends.")
+CLAIM = ('Both back-ends implement the complete primitive interface with the base signatures; every primitive '
+         'that attaches or detaches a node maintains the parent pointer; in the ElementTree back-end the '
+         'shadow child list that reparentChildren/removeChild consult is updated on every path that updates '
+         'the real child list -- the structural reason one back-end could lose or misplace nodes that the '
+         "other keeps; etree text is appended, never overwritten; the childNodes property's list is not "
+         'mutated in place; namespaced attribute keys use their namespace in both back-ends. Text moved by '
+         'reparentChildren is cleared at its source; hasContent counts every child and the text in both back- '
+         'ends; the DOM attribute wrapper keeps the Mapping contract (KeyError for a missing name) that `in` '
+         'relies on.')
 NOT_DECIDED = "text placement (.text/.tail arithmetic), fragment extraction, equality of the resulting trees as such."
 MODULES = ["treebuilders/base.py", "treebuilders/etree.py", "treebuilders/dom.py", "treebuilders/__init__.py"]
 
